@@ -184,7 +184,22 @@ func GoValue(v Val, t Type) reflect.Value {
 // ExpectedStruct builds the struct value gohcl.DecodeBody is documented to
 // produce for a conforming instance.
 func ExpectedStruct(b *BodyS, in *BodyI, labels []string) reflect.Value {
-	st := StructType(b, len(labels))
+	return expectedStruct(b, in, labels, map[typeKey]reflect.Type{})
+}
+
+// typeKey: the struct types built during one ExpectedStruct call are kept (one
+// reflect.StructOf per body schema instead of one per block instance).
+type typeKey struct {
+	b *BodyS
+	n int
+}
+
+func expectedStruct(b *BodyS, in *BodyI, labels []string, memo map[typeKey]reflect.Type) reflect.Value {
+	st, ok := memo[typeKey{b, len(labels)}]
+	if !ok {
+		st = StructType(b, len(labels))
+		memo[typeKey{b, len(labels)}] = st
+	}
 	out := reflect.New(st).Elem()
 	fi := 0
 	for _, l := range labels {
@@ -215,7 +230,10 @@ func ExpectedStruct(b *BodyS, in *BodyI, labels []string) reflect.Value {
 		f := out.Field(fi)
 		fi++
 		bl := in.BlocksOf(bs.Name)
-		et := blockElemType(bs)
+		et := f.Type()
+		for et.Kind() == reflect.Ptr || et.Kind() == reflect.Slice {
+			et = et.Elem()
+		}
 		one := func(bi *BlockI) reflect.Value {
 			if bs.Kind == "attrs" {
 				v := reflect.New(et).Elem()
@@ -226,7 +244,10 @@ func ExpectedStruct(b *BodyS, in *BodyI, labels []string) reflect.Value {
 				v.Field(0).Set(m)
 				return v
 			}
-			return ExpectedStruct(bs.Body, &bi.Body, bi.Labels)
+			if len(bi.Labels) == bs.NLabels {
+				memo[typeKey{bs.Body, bs.NLabels}] = et
+			}
+			return expectedStruct(bs.Body, &bi.Body, bi.Labels, memo)
 		}
 		switch bs.Kind {
 		case "single", "attrs":
